@@ -65,6 +65,7 @@ fn main() {
         }
         return;
     }
+    #[cfg(feature = "native")]
     if id == "show-c10" {
         // tsverif show-c10 <family> <context> <n>
         let c = args.get(3).cloned().unwrap_or_else(|| "top".into());
@@ -77,6 +78,15 @@ fn main() {
         let src = std::fs::read_to_string(&cmd).expect("read");
         let path = arg_val(&args, "--path");
         println!("{}", checks::c20::report_json(&src, path.as_deref(), &Default::default()));
+        return;
+    }
+    #[cfg(feature = "capi")]
+    if id == "host-probe" {
+        // tsverif host-probe <file> [--path P] [--eval]: the conversation with the scripted host of C19
+        let src = std::fs::read_to_string(&cmd).expect("read");
+        let mode = if args.iter().any(|a| a == "--eval") { engine::Mode::Eval } else { engine::Mode::PrepareStep };
+        let mut e = engine::make(mode, &[]);
+        println!("{}", engine::drive(e.as_mut(), &src, arg_val(&args, "--path").as_deref(), &Default::default(), &[]));
         return;
     }
     if id == "seq-probe" {
